@@ -36,7 +36,7 @@ ASSUMPTIONS = [
   'lifted classes are created fresh per history, so trace caches never leak between histories',
   'under nn.jit RNG-derived values are only required to be a deterministic function of the call site (the property says so); they are not compared with the plain twin',
 ]
-PROBES = ['lift_jit', 'lift_jit_method', 'lift_remat', 'lift_mapv_params', 'lift_mapv_mutable', 'cond', 'switch', 'while', 'attr_changed_between_calls', 'varstruct_changed_between_calls', 'mutable_changed_between_calls', 'repeat_same_call', 'fault_inside_lifted', 'write_immutable_same_error', 'jit_rng_deterministic']
+PROBES = ['lift_jit', 'lift_jit_method', 'lift_remat', 'lift_mapv_params', 'lift_mapv_mutable', 'cond', 'switch', 'while', 'attr_changed_between_calls', 'varstruct_changed_between_calls', 'mutable_changed_between_calls', 'repeat_same_call', 'fault_inside_lifted', 'write_immutable_same_error', 'jit_rng_deterministic', 'region_jit', 'region_remat', 'cold_twin_compared']
 
 CROSS_RUN_STATE = True
 
@@ -73,6 +73,7 @@ def setup_worker(w, tier):
   P.EXT['cond'] = ext_cond
   P.EXT['switch'] = ext_switch
   P.EXT['while'] = ext_while
+  P.EXT['region'] = ext_region
 
 
 class Env:
@@ -137,6 +138,35 @@ def ext_kchild(mod, ins, x, n, made):
   return x
 
 
+def ext_region(mod, ins, x, n, made):
+  """A child g used in plain code BEFORE (ENV.k times) and AFTER a function-lifted region (nn.jit / nn.remat of a
+  function of the module) that uses the same child: rng counters and variables of g are shared across the boundary."""
+  ENV.used.add('region_' + ins['lift'])
+  gspec = ins['mod']
+  gname = ins['name'] + '_g'
+  g = made.get(n)
+  if g is None:
+    g = made[n] = P.make(gspec, name=gname)
+  for _ in range(ENV.k if ins.get('use_k') else 1):
+    P.CTL.event('region-pre')
+    x = g(x)
+  if ENV.plain:
+    P.CTL.event('region')
+    x = g(x)
+  else:
+    key = ('region', ins['lift'], ins['name'])
+    fn = ENV.classes.get(key)
+    if fn is None:
+      def body(m, x):
+        P.CTL.event('region')
+        return P.make(gspec, name=gname)(x)
+
+      fn = ENV.classes[key] = (nn.jit if ins['lift'] == 'jit' else nn.remat)(body)
+    x = fn(mod, x)
+  P.CTL.event('region-post')
+  return g(x)
+
+
 def _bump(m, name, plain_vars, d=1.0):
   if ENV.plain:
     v = plain_vars[name]
@@ -164,8 +194,13 @@ def ext_cond(mod, ins, x, n, made):
       return holder['s']
     return P.make(subspec, name=ins['name'] + '_sub')
 
+  pre_inst = [None]
   if ENV.ctl_preinit:
-    x = sub_of(mod)(x) if ENV.plain else P.make(subspec, name=ins['name'] + '_sub')(x)
+    if ENV.plain:
+      x = sub_of(mod)(x)
+    else:
+      pre_inst[0] = P.make(subspec, name=ins['name'] + '_sub')
+      x = pre_inst[0](x)
 
   def tf(m, x):
     P.CTL.event('cond-true')
@@ -178,8 +213,13 @@ def ext_cond(mod, ins, x, n, made):
     return -sub_of(m)(x)
 
   if ENV.plain:
-    return tf(mod, x) if ENV.pred else ff(mod, x)
-  return nn.cond(jnp.asarray(ENV.pred), tf, ff, mod, x)
+    y = tf(mod, x) if ENV.pred else ff(mod, x)
+  else:
+    y = nn.cond(jnp.asarray(ENV.pred), tf, ff, mod, x)
+  if ENV.ctl_preinit and ins.get('post'):
+    # plain use of the SAME bound instance after the transform (it bound its variables before the transform)
+    y = sub_of(mod)(y) if ENV.plain else pre_inst[0](y)
+  return y
 
 
 def ext_switch(mod, ins, x, n, made):
@@ -203,15 +243,21 @@ def ext_switch(mod, ins, x, n, made):
     return b
 
   bs = [mk(i) for i in range(3)]
+  pre_inst = None
   if ENV.ctl_preinit:
     if ENV.plain:
       holder['s'] = P.make(subspec, name=ins['name'] + '_sub')
       x = holder['s'](x)
     else:
-      x = P.make(subspec, name=ins['name'] + '_sub')(x)
+      pre_inst = P.make(subspec, name=ins['name'] + '_sub')
+      x = pre_inst(x)
   if ENV.plain:
-    return bs[ENV.idx](mod, x)
-  return nn.switch(jnp.asarray(ENV.idx), bs, mod, x)
+    y = bs[ENV.idx](mod, x)
+  else:
+    y = nn.switch(jnp.asarray(ENV.idx), bs, mod, x)
+  if ENV.ctl_preinit and ins.get('post'):
+    y = holder['s'](y) if ENV.plain else pre_inst(y)
+  return y
 
 
 def ext_while(mod, ins, x, n, made):
@@ -245,6 +291,15 @@ def ext_while(mod, ins, x, n, made):
 # generation
 
 
+def gen_nested_sub(g, allow_rng):
+  """Top -> Mid -> leaf, setup-defined: the leaf binds its variable dicts when first used."""
+  leaf = [dict(i='var', col='stats', name='v0', kind='counter'), dict(i='param', name='w0', kind='bias')]
+  if allow_rng:
+    leaf.append(dict(i='rng', stream='dropout'))
+  mid = dict(style=g.choice(['setup', 'setup', 'compact']), name=None, body=[dict(i='child', times=1, mod=dict(style=g.choice(['setup', 'compact']), name=None, body=leaf))])
+  return dict(style='setup', name=None, body=[dict(i='child', times=1, mod=mid)])
+
+
 def gen_sub(g, allow_rng, stats_ok=True, sow_ok=True):
   allow = ['param', 'param', 'var'] + (['rng'] if allow_rng else [])
   body = []
@@ -271,7 +326,7 @@ def generate(rs, tier):
   nchild = g.choice([1, 1, 2, 3])
   for c in range(nchild):
     lift = g.choice([None, 'jit', 'jit', 'jit_method', 'remat', 'mapv_params', 'mapv_mut'])
-    rng_ok = lift not in ('jit', 'jit_method')
+    rng_ok = lift not in ('jit', 'jit_method') or g.random() < 0.3
     sub = gen_sub(g, rng_ok and g.random() < 0.5)
     body.append(dict(i='kchild', name=f'c{c}', mod=sub, lift=lift, use_k=g.random() < 0.7, times=g.choice([1, 1, 2]), has_rng=any(b['i'] == 'rng' for b in sub['body'])))
   r = g.random()
@@ -279,11 +334,14 @@ def generate(rs, tier):
     # no RNG draws inside cond/switch branches: under nn.cond the branches are traced one after the other on shared
     # rng counters, so a later branch receives a different key than the plain `if`; the property promises identical
     # draws only for remat (and call-site determinism for jit), so the generator avoids this corner (DESIGN.md)
-    body.append(dict(i='cond', name='cf', mod=gen_sub(g, False, stats_ok=False, sow_ok=False)))
+    body.append(dict(i='cond', name='cf', post=g.random() < 0.6, mod=gen_nested_sub(g, False) if g.random() < 0.4 else gen_sub(g, False, stats_ok=False, sow_ok=False)))
   elif r < 0.35:
-    body.append(dict(i='switch', name='sw', mod=gen_sub(g, False, stats_ok=False, sow_ok=False)))
+    body.append(dict(i='switch', name='sw', post=g.random() < 0.6, mod=gen_nested_sub(g, False) if g.random() < 0.4 else gen_sub(g, False, stats_ok=False, sow_ok=False)))
   elif r < 0.5:
     body.append(dict(i='while', name='wl', mod=gen_sub(g, False, stats_ok=False, sow_ok=False)))  # non-carry collections are read-only inside the loop body
+  if g.random() < 0.3:
+    lift = g.choice(['jit', 'jit', 'remat'])
+    body.append(dict(i='region', name='rg', lift=lift, use_k=g.random() < 0.8, mod=gen_nested_sub(g, g.random() < 0.6) if g.random() < 0.6 else gen_sub(g, g.random() < 0.5)))
   if g.random() < 0.3:
     body.append(dict(i='rng', stream='dropout'))
   g.shuffle(body)
@@ -374,10 +432,39 @@ def struct(x):
   return ('v', repr(x))
 
 
+def _has_rng(sp):
+  for ins in sp['body']:
+    if ins['i'] == 'rng':
+      return True
+    if isinstance(ins.get('mod'), dict) and _has_rng(ins['mod']):
+      return True
+  return False
+
+
+def has_jit(spec):
+  return any((ins['i'] == 'kchild' and ins.get('lift') in ('jit', 'jit_method')) or (ins['i'] == 'region' and ins['lift'] == 'jit') for ins in spec['body'])
+
+
 def has_jit_rng_dependence(spec):
-  """True when values under this spec depend on RNG drawn inside a jit-lifted body (not comparable with plain)."""
+  """True when values depend on RNG drawn (or parameters initialised) inside a jit-lifted body: under nn.jit such
+  values are only promised to be a deterministic function of the call site, not equal to the plain code."""
   for ins in spec['body']:
     if ins['i'] == 'kchild' and ins.get('lift') in ('jit', 'jit_method'):
+      return True
+    if ins['i'] == 'region' and ins['lift'] == 'jit':
+      return True
+  return False
+
+
+def apply_depends_on_jit_rng(spec):
+  # a jit-lifted construct forks the RNG counters of the enclosing scope, so draws anywhere at or below the scope that
+  # contains it may differ from the plain twin ("a deterministic function of the call site under jit")
+  if has_jit(spec) and _has_rng(spec):
+    return True
+  for ins in spec['body']:
+    if ins['i'] == 'kchild' and ins.get('lift') in ('jit', 'jit_method') and _has_rng(ins['mod']):
+      return True
+    if ins['i'] == 'region' and ins['lift'] == 'jit' and _has_rng(ins['mod']):
       return True
   return False
 
@@ -397,6 +484,8 @@ class TwinWorld:
     ENV.mapv_init = bool(k.get('mapv_init'))
     ENV.ctl_preinit = bool(k.get('ctl_preinit', True))
     self.jit_init = has_jit_rng_dependence(self.spec)
+    self.jit_any = has_jit(self.spec)
+    self.jit_rng_apply = apply_depends_on_jit_rng(self.spec)
 
   def setenv(self, op, plain):
     ENV.plain = plain
@@ -411,17 +500,31 @@ class TwinWorld:
       r['params'] = jax.random.fold_in(jax.random.key(seed), 0)
     return r
 
-  def run(self, op, plain, fn, fault_at=None):
+  def run(self, op, plain, fn, fault_at=None, cold=False):
     self.setenv(op, plain)
     P.CTL.reset(fail_at=fault_at)
+    warm = ENV.classes
+    if cold:
+      ENV.classes = {}  # brand-new lifted classes / functions: empty trace caches, no history
     try:
       out = ('ok', fn())
     except P.InjectedFault as e:
       out = ('exc', 'InjectedFault')
     except errors.FlaxError as e:
       out = ('exc', type(e).__name__)
+    finally:
+      ENV.classes = warm
     self.events += P.CTL.count
     return out
+
+  def cold_check(self, oi, op, fn, warm_out, what):
+    """The long-lived lifted classes (whatever their trace caches saw before) must behave like brand-new ones."""
+    if not self.jit_any:
+      return
+    c = self.run(op, False, fn, cold=True)
+    if c[0] != warm_out[0] or (c[0] == 'ok' and val(c[1]) != val(warm_out[1])):
+      raise Violation('stale-trace', f'op {oi} {what}: the lifted twin whose trace caches have a history returned {_short(val(warm_out[1])) if warm_out[0] == "ok" else warm_out}, freshly created lifted classes return {_short(val(c[1])) if c[0] == "ok" else c} for the same call')
+    self.res.probe('cold_twin_compared')
 
   def step(self, oi, op):
     res = self.res
@@ -456,6 +559,7 @@ class TwinWorld:
         b2 = self.run(op, False, lambda: m.init_with_output(rngs, self.x))
         if b2[0] != 'ok' or val(b2[1]) != val(b[1]):
           raise Violation('jit-init-not-deterministic', f'op {oi} init: the jitted twin initialised different values on an identical second call')
+      self.cold_check(oi, op, lambda: m.init_with_output(rngs, self.x), b, 'init')
       self.vars.append(va)
       self.log.add(oi, 'init', kernel.digest(struct(va)))
       return
@@ -490,7 +594,11 @@ class TwinWorld:
         res.probe('write_immutable_same_error')
       self.log.add(oi, 'apply', 'exc', a[1])
       return
-    if val(a[1]) != val(b[1]):
+    self.cold_check(oi, op, fn, b, f'apply(mutable={F!r}, k={op["k"]})')
+    if self.jit_rng_apply:
+      if struct(a[1]) != struct(b[1]):
+        raise Violation('lifted-differs-from-plain', f'op {oi} apply(mutable={F!r}): structure of the lifted twin\'s result differs from the plain twin')
+    elif val(a[1]) != val(b[1]):
       raise Violation('lifted-differs-from-plain', f'op {oi} apply(mutable={F!r}, k={op["k"]}, pred={op["pred"]}, idx={op["idx"]}, trips={op["trips"]}, vars_edit={op.get("vars_edit")}): lifted twin returned {_short(val(b[1]))}, plain twin {_short(val(a[1]))}')
     if op.get('fault'):
       at = op['fault']['at'] % max(1, n_events)
@@ -501,7 +609,7 @@ class TwinWorld:
         if fb[0] == 'ok':
           raise Violation('exception-swallowed', f'op {oi}: exception injected at callback event {at} inside the lifted twin did not reach the caller')
       b3 = self.run(op, False, fn)
-      if b3[0] != 'ok' or val(b3[1]) != val(a[1]):
+      if b3[0] != 'ok' or val(b3[1]) != val(b[1]):
         raise Violation('lifted-differs-after-aborted-trace', f'op {oi}: after an aborted call the lifted twin no longer matches the plain twin')
     self.log.add(oi, 'apply', repr(F), kernel.digest(val(a[1])))
 
